@@ -49,6 +49,25 @@ def main():
         tests = re.findall(r"^func (Test\w+)\(", demo_src, re.M)
         run = "^(%s)$" % "|".join(tests)
         demo_cmd = ["go", "test", "-vet=off", "-count=1", "-run", run, "./" + pkgdir + "/"]
+        if "--detect-only" in flags:
+            # re-run only the /verif checks against the changed tree and refresh the stored detection record
+            rc, out, _ = sh(["git", "apply", os.path.join(src, "patch.diff")], wt, env)
+            if rc != 0:
+                print("patch does not apply:", out); return 1
+            det = {}
+            for c in checks:
+                e2 = dict(os.environ, VERIF_REPO=wt)
+                p = subprocess.run([os.path.join(V, "check"), c, "--tier", "quick"], env=e2, capture_output=True, text=True)
+                lines = [l for l in p.stdout.splitlines() if l.startswith(("VIOLATION", "violation in job", "INCONCLUSIVE", "OK "))]
+                det[c] = {"exit": p.returncode, "lines": [l[:500] for l in lines[:6]]}
+                print("check %s on changed tree: exit %d %s" % (c, p.returncode, {0: "MISSED", 1: "caught", 2: "inconclusive"}.get(p.returncode)))
+            mp = os.path.join(V, "seeded", name, "meta.json")
+            m2 = json.load(open(mp))
+            m2["confirmation"]["result"].setdefault("detection_history", []).append(m2["confirmation"]["result"].get("detection"))
+            m2["confirmation"]["result"]["detection"] = det
+            m2["confirmation"]["result"]["detection_verif_commit"] = subprocess.run(["git", "-C", V, "rev-parse", "--short", "HEAD"], capture_output=True, text=True).stdout.strip()
+            json.dump(m2, open(mp, "w"), indent=1)
+            return 0
         shutil.copyfile(os.path.join(src, "demo_test.go"), demo_dst)
         rc, out, t = sh(demo_cmd, wt, env)
         print("demo on unchanged tree: rc=%d (%.0fs)" % (rc, t))
